@@ -42,7 +42,10 @@ func CloneNode(node ast.Node) ast.Node {
 		return ast.NewBlock(ClonePosition(n.Position), nodes)
 
 	case *ast.Break:
-		label := CloneExpression(n.Label).(*ast.Identifier)
+		var label *ast.Identifier
+		if n.Label != nil {
+			label = CloneExpression(n.Label).(*ast.Identifier)
+		}
 		return ast.NewBreak(ClonePosition(n.Position), label)
 
 	case *ast.Case:
@@ -78,7 +81,10 @@ func CloneNode(node ast.Node) ast.Node {
 		return ast.NewConst(ClonePosition(n.Position), idents, typ, values, n.Index)
 
 	case *ast.Continue:
-		label := CloneExpression(n.Label).(*ast.Identifier)
+		var label *ast.Identifier
+		if n.Label != nil {
+			label = CloneExpression(n.Label).(*ast.Identifier)
+		}
 		return ast.NewContinue(ClonePosition(n.Position), label)
 
 	case *ast.Defer:
